@@ -697,4 +697,36 @@ Proof.
   intros I Ha. destruct (apply_spec _ _ _ _ _ _ I Ha) as ((I' & _) & HF & _). split; [exact I' | exact HF].
 Qed.
 
+(* ---- Secrets() is a pure function of the parsed fields; Apply's name for a field depends on that
+   field alone *)
+
+(* the name under which field i is applied is full_name pfx of field i - whatever the other fields are,
+   whatever the store holds, whatever anybody did with a list Secrets() returned earlier *)
+Lemma apply_names_pointwise pfx pfs (s s' : store) frs rq :
+  Inv s -> apply jdec unm_ok ans now_s pfx s pfs = (s', frs, rq) ->
+  Forall2 (fun pf (r : fres) => rname r = full_name pfx pf /\ rloc r = ploc pf) pfs frs.
+Proof.
+  intros I Ha. destruct (field_values _ _ _ _ _ _ I Ha) as (_ & HF).
+  clear Ha. induction HF as [|pf r pfs' frs' (Hl & Hn & _) _ IH]; [constructor|].
+  constructor; [split; [exact Hn|exact Hl]|exact IH].
+Qed.
+
+(* declaring through Secrets() and applying afterwards is NewStore with the struct configured, for
+   EVERY treatment [scr] of the list Secrets() handed out (in the model this is immediate: the list is
+   a value and [scr]'s result is not used; the Go-side counterpart - the Fields object does not share
+   the slice - is what the "decl" mode of the correspondence run checks), and the second Secrets()
+   returns the same names in the same order *)
+Lemma declare_apply_is_new_store allow_lookup extra scr a pfx :
+  fst (declare_apply jdec unm_ok ans now_s allow_lookup extra scr a pfx)
+    = new_store jdec unm_ok ans now_s allow_lookup extra a pfx /\
+  (forall pfs, parse_fields a = inr pfs ->
+     snd (declare_apply jdec unm_ok ans now_s allow_lookup extra scr a pfx) = secrets_of pfx pfs) /\
+  (forall scr', declare_apply jdec unm_ok ans now_s allow_lookup extra scr a pfx
+                = declare_apply jdec unm_ok ans now_s allow_lookup extra scr' a pfx).
+Proof.
+  unfold declare_apply, new_store. destruct (parse_fields a) as [e|pfs]; cbn [fst snd].
+  - repeat split. intros pfs H. discriminate.
+  - split; [reflexivity|]. split; [|reflexivity]. intros pfs' H. injection H as <-. reflexivity.
+Qed.
+
 End ApplyProofs.
